@@ -1,7 +1,57 @@
 package main
 
-import "io"
+import (
+	"encoding/json"
+	"io"
+
+	"github.com/crate-crypto/go-ipa/ipa"
+)
+
+// configEvent: the shared configuration as seen through the hooks (SRS as raw projective coordinates, Q)
+func configEvent(cfg *ipa.IPAConfig) ev {
+	srs := make([][][]int, len(cfg.SRS))
+	for i := range cfg.SRS {
+		srs[i] = coords(&cfg.SRS[i])
+	}
+	return ev{"ev": "config", "srs": srs, "q": coords(&cfg.Q)}
+}
 
 func ioEOF() error { return io.EOF }
 
-func (d *driver) runOtherFamily(fam, in string, sh *shards) bool { return false }
+func (d *driver) runOtherFamily(fam, in string, sh *shards) bool {
+	switch fam {
+	case "exec":
+		rr := &roundRobin{sh: sh}
+		forEachLine(in, 1, func(shard, k int, line []byte) {
+			var c execCase
+			if err := json.Unmarshal(line, &c); err != nil {
+				panic(err)
+			}
+			d.runExecCase(rr, k, &c)
+		})
+		return true
+	case "decode":
+		rr := &roundRobin{sh: sh}
+		forEachLine(in, 1, func(shard, k int, line []byte) {
+			var c decCase
+			if err := json.Unmarshal(line, &c); err != nil {
+				panic(err)
+			}
+			d.runDecodeCase(rr, k, &c)
+		})
+		return true
+	case "group":
+		// one program per line; all events of a program go to one shard, shards run concurrently
+		cfg := getConf()
+		first := make([]bool, len(sh.ws))
+		forEachLine(in, len(sh.ws), func(shard, k int, line []byte) {
+			if !first[shard] {
+				first[shard] = true
+				sh.at(shard).emit(configEvent(cfg))
+			}
+			d.runGroupProgram(sh.at(shard), k, line)
+		})
+		return true
+	}
+	return false
+}
